@@ -322,6 +322,8 @@ class FileResponse(Response, FileResponseMixin):
     ) -> Generator[bytes, None, None]:
         self.headers["content-type"] = str(self.content_type)
         self.headers["content-length"] = str(file_size)
+        # this object may have answered a range request before
+        self.headers.pop("content-range", None)
         start_response(StatusStringMapping[200], self.list_headers(as_bytes=False))
 
         if send_header_only:
@@ -362,6 +364,7 @@ class FileResponse(Response, FileResponseMixin):
     ) -> Generator[bytes, None, None]:
         boundary = "".join(random_choices("abcdefghijklmnopqrstuvwxyz0123456789", k=13))
         self.headers["content-type"] = f"multipart/byteranges; boundary={boundary}"
+        self.headers.pop("content-range", None)
         content_length, generate_headers = self.generate_multipart(
             ranges, boundary, file_size, self.content_type
         )
